@@ -396,6 +396,8 @@ func checkC12(c *vkit.Ctx) {
 				snaps.VerifSetNoColor(true)
 				base := o.build(root)
 				var derived *snaps.Config
+				flip := r.IntN(2) == 0
+				updDerived := o.Upd
 				want := map[string]bool{}
 				sk := map[string]int{}
 				t := vkit.NewT("TestC/sub")
@@ -403,15 +405,21 @@ func checkC12(c *vkit.Ctx) {
 					if k == copyAt {
 						d := *base
 						snaps.Filename("derived")(&d)
+						if flip && o.Upd != nil {
+							// the copy gets the opposite Update option; the original keeps its own
+							snaps.Update(!*o.Upd)(&d)
+							nu := !*o.Upd
+							updDerived = &nu
+						}
 						derived = &d
 					}
-					cfg, file := base, o.File
+					cfg, file, upd := base, o.File, o.Upd
 					if via[k] && derived != nil {
-						cfg, file = derived, "derived"
+						cfg, file, upd = derived, "derived", updDerived
 					}
 					callEntry(cfg, t, api, k)
 					t.Take()
-					if o.Upd != nil && !*o.Upd {
+					if upd != nil && !*upd {
 						continue
 					}
 					ext := o.Ext
